@@ -141,7 +141,7 @@ def run(ctx):
     r = sc.model_check(ctx, "MCSerRound", "MCSerRound.cfg" if ctx.quick else "MCSerRoundBig.cfg", ACTIONS)
     models = sc.tlc_values(ctx, big=False)
     ngen = 500 if ctx.quick else 5000
-    gen = [pyval.to_model(v) for v in sc.special_values()]
+    gen = [pyval.to_model(v) for v in sc.special_values(extended=True)]
     gen += [pyval.to_model(sc.rand_value(rng, depth=rng.randint(1, 5), allow_bad=False, width=rng.choice([2, 5, 10]))) for _ in range(ngen)]
     streams = legacy_streams(rng, 400 if ctx.quick else 4000)
     loads = [{"inp": s, "cfg": [a, b], "stream": (i % 3 == 0)} for i, s in enumerate(streams) for a, b in itertools.product([False, True], repeat=2)]
